@@ -152,71 +152,8 @@ func runTagKeep(c *core.Ctx) {
 			}
 			return false
 		}
-		// requestedTag: v is "" or the ref-name annotation of a (non-receiver) parameter on every path
-		// (isReq decides which parameter of the frame the value lives in is ‘the requested descriptor’: in fn a
-		// non-receiver parameter; in an accessor of the package called on that descriptor, the parameter it is passed as)
-		var requestedTagIn func(v ssa.Value, seen map[ssa.Value]bool, isReq func(*ssa.Parameter) bool, depth int) bool
-		requestedTagIn = func(v ssa.Value, seen map[ssa.Value]bool, isReq func(*ssa.Parameter) bool, depth int) bool {
-			v = an.Strip(v)
-			if seen[v] {
-				return true
-			}
-			seen[v] = true
-			switch x := v.(type) {
-			case *ssa.Const:
-				s, ok := an.ConstString(x)
-				return ok && s == ""
-			case *ssa.Phi:
-				for _, e := range x.Edges {
-					if !requestedTagIn(e, seen, isReq, depth) {
-						return false
-					}
-				}
-				return true
-			case *ssa.Lookup:
-				k, ok := constStringOf(x.Index)
-				if !ok || k != refName {
-					return false
-				}
-				root, pth := accessPath(an.Strip(x.X))
-				p, isParam := root.(*ssa.Parameter)
-				return isParam && isReq(p) && pathEq(pth, "Annotations")
-			case *ssa.Extract, *ssa.Call:
-				// an accessor of the package applied to the requested descriptor: (tag, subject) := d.refAnnotations()
-				if depth > 2 {
-					return false
-				}
-				hr := an.HelperReturns(v, func(h *ssa.Function) bool { return core.FuncPkgPath(h) == core.FuncPkgPath(fn) })
-				if len(hr) == 0 {
-					return false
-				}
-				for _, r := range hr {
-					r := r
-					inner := func(q *ssa.Parameter) bool {
-						for i, hp := range r.Callee.Params {
-							if hp == q && i < len(r.Call.Call.Args) {
-								root, pth := accessPath(an.Strip(r.Call.Call.Args[i]))
-								if al, isAlloc := root.(*ssa.Alloc); isAlloc {
-									if st := an.SingleStore(al); st != nil {
-										root = an.Strip(st)
-									}
-								}
-								op, isParam := root.(*ssa.Parameter)
-								return isParam && len(pth) == 0 && isReq(op)
-							}
-						}
-						return false
-					}
-					if !requestedTagIn(r.Val, map[ssa.Value]bool{}, inner, depth+1) {
-						return false
-					}
-				}
-				return true
-			}
-			return false
-		}
 		requestedTag := func(v ssa.Value, seen map[ssa.Value]bool) bool {
-			return requestedTagIn(v, seen, func(p *ssa.Parameter) bool { return p != recv }, 0)
+			return requestedTagIn(fn, refName, v, seen, func(p *ssa.Parameter) bool { return p != recv }, 0)
 		}
 		type site struct {
 			kind  string
@@ -446,12 +383,172 @@ func runTagKeep(c *core.Ctx) {
 			} else {
 				unguarded = reach(start)
 			}
+			// the ‘no tag requested’ decision may have been taken by the caller: an unexported step every call of which
+			// sits behind that edge in a method of the index
+			if unguarded && s.kind == "remove" && onlyOnEmptyTagEdge(c, fn, refName) {
+				unguarded = false
+			}
 			c.Check(!unguarded, key, s.at.Pos(), "%s of an index entry in %s at %s happens only after the annotations of that entry were examined (or on the ‘no tag requested’ edge of a removal by digest): %v — otherwise an entry is dropped on the digest alone and a tag that was never deleted or moved disappears from the listing and from pulls by tag", s.kind, c.P.FuncName(fn), c.P.Pos(s.at.Pos()), !unguarded)
 		}
 	}
 	if sites == 0 {
 		c.Unresolved("sites", "no in-place edit of Index.Manifests found in the methods of types.Index")
 	}
+}
+
+// requestedTagIn: v is "" or the ref-name annotation of a (non-receiver) parameter on every path
+// (isReq decides which parameter of the frame the value lives in is ‘the requested descriptor’: in fn a
+// non-receiver parameter; in an accessor of the package called on that descriptor, the parameter it is passed as)
+func requestedTagIn(fn *ssa.Function, refName string, v ssa.Value, seen map[ssa.Value]bool, isReq func(*ssa.Parameter) bool, depth int) bool {
+	v = an.Strip(v)
+	if seen[v] {
+		return true
+	}
+	seen[v] = true
+	switch x := v.(type) {
+	case *ssa.Const:
+		s, ok := an.ConstString(x)
+		return ok && s == ""
+	case *ssa.Phi:
+		for _, e := range x.Edges {
+			if !requestedTagIn(fn, refName, e, seen, isReq, depth) {
+				return false
+			}
+		}
+		return true
+	case *ssa.Lookup:
+		k, ok := constStringOf(x.Index)
+		if !ok || k != refName {
+			return false
+		}
+		root, pth := accessPath(an.Strip(x.X))
+		p, isParam := root.(*ssa.Parameter)
+		return isParam && isReq(p) && pathEq(pth, "Annotations")
+	case *ssa.Extract, *ssa.Call:
+		// an accessor of the package applied to the requested descriptor: (tag, subject) := d.refAnnotations()
+		if depth > 2 {
+			return false
+		}
+		hr := an.HelperReturns(v, func(h *ssa.Function) bool { return core.FuncPkgPath(h) == core.FuncPkgPath(fn) })
+		if len(hr) == 0 {
+			return false
+		}
+		for _, r := range hr {
+			r := r
+			inner := func(q *ssa.Parameter) bool {
+				for i, hp := range r.Callee.Params {
+					if hp == q && i < len(r.Call.Call.Args) {
+						root, pth := accessPath(an.Strip(r.Call.Call.Args[i]))
+						if al, isAlloc := root.(*ssa.Alloc); isAlloc {
+							if st := an.SingleStore(al); st != nil {
+								root = an.Strip(st)
+							}
+						}
+						op, isParam := root.(*ssa.Parameter)
+						return isParam && len(pth) == 0 && isReq(op)
+					}
+				}
+				return false
+			}
+			if !requestedTagIn(fn, refName, r.Val, map[ssa.Value]bool{}, inner, depth+1) {
+				return false
+			}
+		}
+		return true
+	}
+	return false
+}
+
+// emptyTagEdges: the edges of g on which the tag of the requested descriptor (a non-receiver parameter) is empty.
+func emptyTagEdges(g *ssa.Function, refName string) map[[2]int]bool {
+	out := map[[2]int]bool{}
+	if len(g.Params) == 0 {
+		return out
+	}
+	recv := g.Params[0]
+	for _, b := range g.Blocks {
+		ifi := an.BlockIf(b)
+		if ifi == nil {
+			continue
+		}
+		base, neg := an.CondBase(ifi.Cond)
+		bo, ok := base.(*ssa.BinOp)
+		if !ok || (bo.Op != token.EQL && bo.Op != token.NEQ) {
+			continue
+		}
+		other, k := bo.X, bo.Y
+		if _, isConst := other.(*ssa.Const); isConst {
+			other, k = bo.Y, bo.X
+		}
+		if ks, ok := constStringOf(k); !ok || ks != "" {
+			continue
+		}
+		if _, isConst := an.Strip(other).(*ssa.Const); isConst {
+			continue
+		}
+		if !requestedTagIn(g, refName, other, map[ssa.Value]bool{}, func(p *ssa.Parameter) bool { return p != recv }, 0) {
+			continue
+		}
+		emptySucc := 0
+		if bo.Op == token.NEQ {
+			emptySucc = 1
+		}
+		if neg {
+			emptySucc = 1 - emptySucc
+		}
+		out[[2]int{b.Index, emptySucc}] = true
+	}
+	return out
+}
+
+// onlyOnEmptyTagEdge: fn is an unexported method every call of which sits in a method of the same receiver type, on the
+// receiver of that method, at a place the method's entry reaches only across a ‘requested tag is empty’ edge.
+func onlyOnEmptyTagEdge(c *core.Ctx, fn *ssa.Function, refName string) bool {
+	obj, _ := fn.Object().(*types.Func)
+	if obj == nil || obj.Exported() || fn.Signature.Recv() == nil {
+		return false
+	}
+	callers := c.P.Callers(fn)
+	if len(callers) == 0 {
+		return false
+	}
+	for _, site := range callers {
+		g := site.Parent()
+		if g == nil || g == fn || g.Signature.Recv() == nil || len(g.Params) == 0 || !types.Identical(g.Signature.Recv().Type(), fn.Signature.Recv().Type()) {
+			return false
+		}
+		if site.Common().StaticCallee() != fn || len(site.Common().Args) == 0 || site.Common().Args[0] != ssa.Value(g.Params[0]) {
+			return false
+		}
+		if _, isCall := site.(*ssa.Call); !isCall {
+			return false
+		}
+		cut := emptyTagEdges(g, refName)
+		seen := map[*ssa.BasicBlock]bool{}
+		var reach func(b *ssa.BasicBlock) bool
+		reach = func(b *ssa.BasicBlock) bool {
+			if b == site.Block() {
+				return true
+			}
+			if seen[b] {
+				return false
+			}
+			seen[b] = true
+			for i, x := range b.Succs {
+				if cut[[2]int{b.Index, i}] {
+					continue
+				}
+				if reach(x) {
+					return true
+				}
+			}
+			return false
+		}
+		if reach(g.Blocks[0]) {
+			return false
+		}
+	}
+	return true
 }
 
 // removerMethod: h is a pointer-receiver method that shortens a slice field of its receiver after overwriting the
